@@ -80,6 +80,67 @@ def complete_ids(root, expected):
     return out
 
 
+_VIS = {}
+
+
+class _Recorder:
+    """Interceptor controller that only records what is looked at."""
+
+    def __init__(self):
+        self.ops = []
+
+    def is_actor(self):
+        return True
+
+    def wants(self, path):
+        return (os.sep + "results") in path
+
+    def op(self, kind, path, **info):
+        self.ops.append((kind, path))
+        return None
+
+    def die(self):
+        raise RuntimeError
+
+
+def visibility(x, root, case):
+    """Which names in results/ do the observers look at?  (dry run of the
+    observers alone on the completely grown crop)"""
+    key = root
+    if key in _VIS:
+        return _VIS[key]
+    c = x.Crop(name="c11", parent_dir=root)
+    c.grow_missing()
+    rec = _Recorder()
+    icpt = fsx.Interceptor(root, rec, all_threads=True)
+    icpt.install()
+    try:
+        if case.get("reaper", True):
+            x.Crop(name="c11", parent_dir=root).reap(wait=True,
+                                                     clean_up=False)
+        cp = x.Crop(name="c11", parent_dir=root)
+        cp.num_results
+        cp.missing_results()
+        cp.is_ready_to_reap()
+        str(cp)
+    finally:
+        fsx.Interceptor.uninstall()
+    vis = {"patterns": set(), "exact": set(), "listing": False}
+    for kind, path in rec.ops:
+        if kind == "glob":
+            vis["patterns"].add(path)
+        elif kind == "listdir":
+            vis["listing"] = True
+        elif kind in ("exists", "isfile", "open-r"):
+            vis["exact"].add(path)
+    resdir = os.path.join(crops.crop_dir(root, "c11"), "results")
+    for f in os.listdir(resdir):
+        os.remove(os.path.join(resdir, f))
+    _VIS.clear()
+    _VIS[key] = vis
+    return vis
+
+
 def one_run(x, root, case, expected, direct, schedule, default="rr"):
     """Run one schedule.  Returns (decisions, info) or raises
     PropertyViolation."""
@@ -91,18 +152,27 @@ def one_run(x, root, case, expected, direct, schedule, default="rr"):
     writing = {}                 # actor -> path being written
     obs = {"glob": None, "isfile": {}}
 
+    vis = visibility(x, root, case)
+
     def wants(path):
-        # Only files that an observer can see are yield points: observers
-        # look for result files by name and by the glob xyz-result-*.jbdmp.
-        # Operations on any other name in results/ (e.g. a private temporary
-        # file) commute with everything the other actors do.
+        # Only names that some observer can see are yield points (partial-
+        # order reduction): the names and glob patterns the observers really
+        # query were recorded in a dry run; operations on any other name in
+        # results/ (e.g. a private temporary file) commute with everything
+        # the other actors do.  If an observer lists the directory, every
+        # name is visible.
         if (os.sep + "results") not in path:
             return False
-        base = os.path.basename(path)
-        return base == "results" or fnmatch.fnmatch(base,
-                                                    "xyz-result-*.jbdmp")
+        if vis["listing"] or path in vis["exact"]:
+            return True
+        return any(fnmatch.fnmatch(path, pat) for pat in vis["patterns"]) \
+            or os.path.basename(path) == "results"
 
     def on_op(actor, kind, path):
+        with fsx.bypass():
+            return _on_op(actor, kind, path)
+
+    def _on_op(actor, kind, path):
         info["ops"] += 1
         if actor.startswith("grow"):
             if kind == "create":
@@ -117,9 +187,15 @@ def one_run(x, root, case, expected, direct, schedule, default="rr"):
                                if a["name"].startswith("grow"))):
             info["observed_inflight"] += 1
         if actor == "poll":
-            if kind == "glob" and "xyz-result" in path:
-                present = {int(os.path.basename(p).split("-")[2].split(".")[0])
-                           for p in fsx._real["glob"](path)}
+            if (kind == "glob" and "xyz-result" in path) or \
+                    (kind == "listdir" and path.rstrip(os.sep).endswith(
+                        "results")):
+                present = set()
+                for p in fsx._real["glob"](os.path.join(
+                        crops.crop_dir(root, "c11"), "results",
+                        "xyz-result-*.jbdmp")):
+                    present.add(int(os.path.basename(p).split("-")[2]
+                                    .split(".")[0]))
                 obs["glob"] = (present, complete_ids(root, expected))
             elif kind == "isfile":
                 b = os.path.basename(path)
@@ -204,9 +280,10 @@ def one_run(x, root, case, expected, direct, schedule, default="rr"):
     for rec in reported:
         if rec[0] == "num_results":
             _, n, present, truth = rec
-            require(set(present) <= set(truth), "partial-result-counted",
-                    f"num_results={n} counted result files {present} while "
-                    f"only {truth} were completely written at that instant")
+            require(set(present) <= set(truth) and n <= len(truth),
+                    "partial-result-counted",
+                    f"num_results={n} (result files {present}) while only "
+                    f"{truth} were completely written at that instant")
         elif rec[0] == "missing":
             _, miss, seen = rec
             for i, (isf, comp) in seen.items():
